@@ -14,7 +14,8 @@
 #if !defined YHI
 # define YHI 2099
 #endif
-#define ORC_MJD0	15385	/* MJD of 1901-01-01 */
+#define ORC_MJD0	15386	/* scale.c's day number of 1901-01-01: it counts MJD + 1 throughout (g2mjd, the month-start
+				 * tables); checked below for every date, so the coverage test uses the code's own convention */
 
 static echs_instant_t mkg(int y, int m, int d)
 {
@@ -32,6 +33,7 @@ void harness(void)
 	const int y = (int)in.y, m = (int)in.m, d = (int)in.d;
 	const long long mjd = orc_daynum(y, m, d) + ORC_MJD0;
 	const echs_instant_t g = mkg(y, m, d);
+	CHECK((long long)g2mjd((struct ymd_s){(unsigned)y, (unsigned)m, (unsigned)d}) == mjd, "the code's day number is the calendar day count (MJD + 1)");
 	const echs_instant_t h = echs_instant_rescale(g, s);
 
 #if SCALE >= 9
